@@ -56,9 +56,12 @@ def spell_like(d, rng):
         if not c.get('like') and impstyle != 'n':
             c['impsrc'] = 'cellmulti'
             c['imptxt'] = ('imp:n,p=%d' % c['imp']) if impstyle == 'list' else ('imp:n=%d imp:p=%d' % (c['imp'], c['imp']))
+    # transformations (pure translations) with three entries, or - every other deck - the base cards in the
+    # starred 12-entry form (identity in degrees) and the BUT overrides with the full matrix of cosines
+    trstyle = rng.choice(['3', 'full'])
     for c in d['cells']:
-        c['trclspell'] = '3'
-        c['ftrspell'] = '3'
+        c['trclspell'] = '3' if trstyle == '3' else 'star'
+        c['ftrspell'] = '3' if trstyle == '3' else 'star'
         toks = []
         for key in ('mat', 'rho', 'imp', 'fill', 'u', 'trcl'):
             if key not in c['but']:
@@ -74,11 +77,12 @@ def spell_like(d, rng):
                     toks.append(rng.choice(['imp:n,p=%d' % c['imp'], 'imp:n=%d imp:p=%d' % (c['imp'], c['imp']),
                                             'imp:p=%d imp:n=%d' % (c['imp'], c['imp'])]))
             elif key == 'fill':
-                toks.append('fill=%d' % c['fill'] + (' (0 1 1)' if c['hasftr'] else ''))
+                toks.append('fill=%d' % c['fill'] + ((' (0 1 1)' if trstyle == '3' else ' (0 1 1 1 0 0 0 1 0 0 0 1)')
+                                                     if c['hasftr'] else ''))
             elif key == 'u':
                 toks.append('u=%d' % c['u'])
             else:
-                toks.append('trcl=(%d %d %d)' % tuple(c['trcl']['o']))
+                toks.append(('trcl=(%d %d %d)' if trstyle == '3' else 'trcl=(%d %d %d 1 0 0 0 1 0 0 0 1)') % tuple(c['trcl']['o']))
         c['butkeys'] = sorted(c['but'])
         c['but'] = toks
     d['predecorated'] = True
@@ -86,8 +90,20 @@ def spell_like(d, rng):
 
 
 def explicit(deck):
+    """The same deck with every LIKE n BUT card written out; a transformation is spelled as the card that supplied
+    it spelled it (the BUT list: cosines; the base card: as the base card), so that the two texts give the same
+    floating-point numbers."""
     d = dict(deck)
-    d['cells'] = [dict(c, like=0) for c in deck['cells']]
+    cells = []
+    for c in deck['cells']:
+        c2 = dict(c, like=0)
+        if c.get('like'):
+            if 'trcl' in c.get('butkeys', []) and c['trclspell'] == 'star':
+                c2['trclspell'] = '12'
+            if 'fill' in c.get('butkeys', []) and c['ftrspell'] == 'star':
+                c2['ftrspell'] = '12'
+        cells.append(c2)
+    d['cells'] = cells
     return d
 
 
